@@ -42,12 +42,19 @@ structure MirrorAttr (owner : String) (a : Attr) (d : DAttr) : Prop where
   type : MirrorRef a.type d.type
   kind : d.kind = (if a.kind == .derived then DKind.D else if a.redecl.isSome then DKind.R else DKind.E)
 
+/-- the entity whose attribute an INVERSE attribute inverts: `inv : e FOR x` or `inv : SET|BAG [..] OF e FOR x` -/
+inductive InvTarget : TRef → String → Prop
+  | single (n : String) : InvTarget (.entity n) n
+  | many (k : AggKind) (b : Option (Int × Upper)) (u o : Bool) (n : String) : InvTarget (.aggr k b u o (.entity n)) n
+
 structure MirrorInv (owner : String) (a : Attr) (d : DInv) : Prop where
   name : d.name = registeredName a
   opt : d.opt = a.optional
   owner : d.owner = owner
   type : MirrorRef a.type d.type
   invAttr : d.invAttr = a.invAttr
+  /-- `inverted_entity_id_` names the entity the declaration names -/
+  invEntity : ∀ n, InvTarget a.type n → d.invEntity = n
 
 structure MirrorEntity (s : Schema) (e : Entity) (d : DEntity) : Prop where
   name : d.name = e.name
@@ -501,6 +508,12 @@ theorem mirrorAttr_dattrOf (owner : String) (a : Attr) : MirrorAttr owner a (dat
 
 theorem mirrorInv_dinvOf (owner : String) (a : Attr) : MirrorInv owner a (dinvOf owner a) :=
   { name := by unfold dinvOf dictAttrName registeredName; cases a.redecl <;> rfl
-    opt := rfl, owner := rfl, type := mirrorRef_refOf _, invAttr := rfl }
+    opt := rfl, owner := rfl, type := mirrorRef_refOf _, invAttr := rfl
+    invEntity := by
+      intro n h
+      unfold dinvOf
+      simp only
+      generalize a.type = t at h
+      cases h <;> rfl }
 
 end StepModel.GenCxx
